@@ -165,7 +165,7 @@ PASSED_RE = re.compile(r"\[rapid\] OK, passed (\d+) tests")
 def run_replay(binary, target, rundir, tag, excludes=(), timeout=600):
     env = goenv()
     env.update({"VERIF_OUT": os.path.join(rundir, "out"), "VERIF_REPLAYS": REPLAYS, "VERIF_REPLAY": target,
-                "VERIF_EXCLUDE": ",".join(sorted(excludes))})
+                "VERIF_EXCLUDE": ",".join(sorted(excludes)), "VERIF_HANG_BOUND": "180"})
     if binary.endswith(".race.test"):
         env["GORACE"] = "halt_on_error=1 exitcode=66"
     j = Job("replay:" + tag, [binary, "-test.run", "^TestReplay$", "-test.v", "-test.timeout", "0"], env,
